@@ -74,7 +74,7 @@ def catalogue():
     # explicit `next` on the last step of a sequence (loop back to an earlier step): used for the tree check only (running it never ends)
     C["step_next"] = (wf("m", [step("s1", [irq("a1")]), step("s2", [irq("a2"), irq("a2b")], next="s1")]), {})
     # a long timeout rule on an open act and a timer tick before the client answers (reload must keep the start time)
-    C["tmo_reload"] = (wf("m", [step("s1", [irq("a1", timeout=[timeout("1h", [step("ts0", [irq("ta0")])])], _pre_actions=[["Tick", {}]])]), step("s2", [irq("a2", _pre_actions=[["Tick", {}]])],
+    C["tmo_reload"] = (wf("m", [step("s1", [irq("a1", timeout=[timeout("1h", [step("ts0", [irq("ta0")])])], _pre_actions=[["SetProcessVars", {"z": 1}], ["Tick", {}]])]), step("s2", [irq("a2", _pre_actions=[["SetProcessVars", {"z": 2}], ["Tick", {}]])],
                                                                                                                                                  timeout=[timeout("2h", [step("ts1", [irq("ta1")])])])]), {})
     C["two_steps"] = (wf("m", [step("s1", [irq("a1")]), step("s2", [irq("a2")])]), {})
     C["one_irq"] = (wf("m", [step("s1", [irq("a1")])]), {})
@@ -213,3 +213,15 @@ def catalogue():  # noqa: F811
     C = _BASE_CATALOGUE()
     C.update(c04_family())
     return C
+
+
+# skeletons that only make sense for a particular driver (tree check, engine-raised errors, reload with ticks)
+SPECIAL = ("step_next", "tmo_reload", "init_err_own_catch", "init_err_step_catch", "init_err_uncaught")
+
+
+def flow_names(extended=True):
+    """Scenarios for the scripted forward runs (C01-C03, C05, C08, C11): every hand-written skeleton that runs to an end when answered."""
+    names = [n for n in catalogue() if not n.startswith("c04:") and n not in SPECIAL]
+    if not extended:
+        names = [n for n in names if n not in ("catch_nested_par", "catch_in_catch", "catch_all_and_code", "catch_outer_step_branch", "params_template", "two_scope_vars")]
+    return names
